@@ -74,7 +74,9 @@ def run_tlc(module, cfg, label, workers=1, timeout=900, env=None, extra=None, xm
     meta = os.path.join(BUILD, 'tlc', label)
     shutil.rmtree(meta, ignore_errors=True)
     os.makedirs(meta, exist_ok=True)
-    cmd = ['java', '-XX:+UseParallelGC']
+    # one-worker runs (trace validation, many JVMs side by side) use the serial collector: with the
+    # parallel collector 16 JVMs x 16 GC threads thrash
+    cmd = ['java', '-XX:+UseSerialGC', '-XX:TieredStopAtLevel=4'] if workers == 1 else ['java', '-XX:+UseParallelGC', '-XX:ParallelGCThreads=4']
     if xmx:
         cmd.append('-Xmx' + xmx)
     if deque:
